@@ -32,7 +32,9 @@ def _call(f, *a, **kw):
 _x = st.integers(-2, U - 3)          # includes -1 and -2 (equal hashes) and 0
 _operand = st.tuples(st.sampled_from(['set', 'frozenset', 'list', 'tuple', 'iset']), st.lists(_x, max_size=6)).map(list)
 _idx = st.integers(-40, 40)
-_bound = st.one_of(st.none(), st.integers(-16, 16))
+_bound = st.one_of(st.none(), st.integers(-16, 16), st.integers(-16, 16), st.integers(-16, 16),
+                   # bounds beyond the machine word (a list clamps them)
+                   st.sampled_from([2 ** 63 - 1, 2 ** 63, 2 ** 64, 10 ** 30, -2 ** 63 - 1, -10 ** 30]))
 
 
 def _op():
@@ -49,6 +51,7 @@ def _op():
         st.tuples(st.just('pop'), _idx),
         st.tuples(st.just('clear')),
         st.tuples(st.just('sort'), st.booleans()),
+        st.tuples(st.just('sort_key'), st.sampled_from(['mod3', 'mod2', 'const', 'neg']), st.booleans()),
         st.tuples(st.just('reverse')),
         st.tuples(st.just('inplace'), st.sampled_from(['|=', '&=', '-=', '^=']), _operand),
         st.tuples(st.just('intersection_update'), ops1),
@@ -64,8 +67,8 @@ def _op():
         st.tuples(st.just('symdiff'), _operand),
         st.tuples(st.just('operator'), st.sampled_from(['|', '&', '-', '^', 'r|', 'r&', 'r-', 'r^']), _operand),
         st.tuples(st.just('predicate'), st.sampled_from(['issubset', 'issuperset', 'isdisjoint']), _operand),
-        st.tuples(st.just('slice'), _bound, _bound, st.sampled_from([None, 1, 2, 3])),
-        st.tuples(st.just('slice'), _bound, _bound, st.sampled_from([None, 1, 2, 3])),
+        st.tuples(st.just('slice'), _bound, _bound, st.sampled_from([None, 1, 2, 3, 2 ** 63, 10 ** 20])),
+        st.tuples(st.just('slice'), _bound, _bound, st.sampled_from([None, 1, 2, 3, 2 ** 63, 10 ** 20])),
         # a second live instance derived from the current one; 'switch' continues the history on another live instance
         st.tuples(st.just('clone'), st.sampled_from(['ctor', 'update_empty', 'ior_empty', 'from_iterable', 'slice_all', 'union_none'])),
         st.tuples(st.just('switch'), st.integers(0, 3)),
@@ -292,6 +295,11 @@ def run(case):
         elif name == 'sort':
             got = _call(lambda: s.sort(reverse=op[1]))
             m = sorted(m, reverse=op[1])
+        elif name == 'sort_key':
+            # keys with ties: a stable sort keeps tied items in their *current* order
+            kf = {'mod3': lambda x: x % 3, 'mod2': lambda x: x % 2, 'const': lambda x: 0, 'neg': lambda x: -x}[op[1]]
+            got = _call(lambda: s.sort(key=kf, reverse=op[2]))
+            m = sorted(m, key=kf, reverse=op[2])
         elif name == 'reverse':
             got = _call(s.reverse)
             m.reverse()
@@ -453,8 +461,8 @@ def run(case):
             i, j, k = op[1], op[2], op[3]
             if big:
                 # scale the bounds to the size of the set
-                i = None if i is None else i * max(1, len(m) // 16)
-                j = None if j is None else j * max(1, len(m) // 16)
+                i = None if i is None or abs(i) > 16 else i * max(1, len(m) // 16)
+                j = None if j is None or abs(j) > 16 else j * max(1, len(m) // 16)
             got = _call(lambda: s[i:j:k])
             if got[0] == 'ok' and type(got[1]) is IndexedSet:
                 got = ('ok', list(got[1]))
